@@ -253,10 +253,10 @@ package grpcgcp
 // entry that lists the name and carries exactly that affinity section (no other method is mapped)
 //@   ensures [C17.method-mapped] forall i, mc in gb.cfg.ApiConfig.Method :: mc != nil && mc.Affinity != nil ==> (forall j, name in mc.Name :: name in gb.methodCfg)
 //@   ensures [C17.method-only] forall name in gb.methodCfg :: exists i, mc in gb.cfg.ApiConfig.Method :: mc != nil && mc.Affinity != nil && gb.methodCfg[name] == mc.Affinity && (exists j, n in mc.Name :: n == name)
-//@   loop 1 invariant forall i, mc in methodCfgs :: i <= $i ==> (mc != nil && mc.Affinity != nil ==> (forall j, name in mc.Name :: name in mp))
-//@   loop 1 invariant forall name in mp :: exists i, mc in methodCfgs :: i <= $i && mc != nil && mc.Affinity != nil && mp[name] == mc.Affinity && (exists j, n in mc.Name :: n == name)
-//@   loop 2 invariant forall i, mc in methodCfgs :: i < $idx(1) ==> (mc != nil && mc.Affinity != nil ==> (forall j, name in mc.Name :: name in mp))
-//@   loop 2 invariant forall name in mp :: exists i, mc in methodCfgs :: i <= $idx(1) && mc != nil && mc.Affinity != nil && mp[name] == mc.Affinity && (exists j, n in mc.Name :: n == name)
+//@   loop 1 invariant forall i, mc in $ranged(1) :: i <= $i ==> (mc != nil && mc.Affinity != nil ==> (forall j, name in mc.Name :: name in mp))
+//@   loop 1 invariant forall name in mp :: exists i, mc in $ranged(1) :: i <= $i && mc != nil && mc.Affinity != nil && mp[name] == mc.Affinity && (exists j, n in mc.Name :: n == name)
+//@   loop 2 invariant forall i, mc in $ranged(1) :: i < $idx(1) ==> (mc != nil && mc.Affinity != nil ==> (forall j, name in mc.Name :: name in mp))
+//@   loop 2 invariant forall name in mp :: exists i, mc in $ranged(1) :: i <= $idx(1) && mc != nil && mc.Affinity != nil && mp[name] == mc.Affinity && (exists j, n in mc.Name :: n == name)
 //@   loop 2 invariant forall j, name in methodNames :: j <= $i ==> name in mp
 //@   fresh_writes pb.ApiConfig pb.ChannelPoolConfig pb.MethodConfig pb.AffinityConfig GCPBalancerConfig
 //@ func (gb *gcpBalancer) regeneratePicker
@@ -266,10 +266,12 @@ package grpcgcp
 //@   ensures [C04.picker-ok] gb.state != connectivity.TransientFailure ==> gb.picker is *gcpPicker && gb.picker.(*gcpPicker).gb == gb
 //@   ensures [C02.snapshot-ready] gb.state != connectivity.TransientFailure ==> forall x in gb.picker.(*gcpPicker).scRefs :: x != nil && x.subConn in gb.scStates && gb.scStates[x.subConn] == connectivity.Ready && gb.scRefs[x.subConn] == x
 //@   ensures [C02.snapshot-all] gb.state != connectivity.TransientFailure ==> forall sc, st in gb.scStates :: st == connectivity.Ready ==> exists j, x in gb.picker.(*gcpPicker).scRefs :: x == gb.scRefs[sc]
+//@   ensures [C10,C02 picker-list-private] gb.state != connectivity.TransientFailure ==> mine(gb.picker.(*gcpPicker).scRefs)
 //@   ensures gb.picker != nil
 //@   loop 1 invariant forall x in readyRefs :: x != nil && isa(x) && x.subConn in gb.scStates && gb.scStates[x.subConn] == connectivity.Ready && gb.scRefs[x.subConn] == x
 //@   loop 1 invariant len(readyRefs) > 0 ==> len(gb.scRefList) > 0
 //@   loop 1 invariant sliceoff(readyRefs) == 0
+//@   loop 1 invariant mine(readyRefs)
 //@   loop 1 invariant forall sc, st in gb.scStates :: $visited(sc) && st == connectivity.Ready ==> exists j, x in readyRefs :: x == gb.scRefs[sc]
 //@
 //@ func NewGCPLogger
